@@ -236,4 +236,13 @@ pub open spec fn sq0() -> Seq<u8> { Seq::<u8>::empty() }
 pub open spec fn sq1(a: u8) -> Seq<u8> { seq![a] }
 pub open spec fn sq2(a: u8, b: u8) -> Seq<u8> { seq![a, b] }
 pub open spec fn sq3(a: u8, b: u8, c: u8) -> Seq<u8> { seq![a, b, c] }
+
+/// std: Range::is_empty (generic over Idx; the meaning for usize is given by the axiom below). TRUSTED.
+pub uninterp spec fn range_is_empty<Idx>(r: &Range<Idx>) -> bool;
+pub assume_specification<Idx: PartialOrd + PartialOrd> [Range::<Idx>::is_empty] (r: &Range<Idx>) -> (b: bool)
+    ensures b == range_is_empty(r);
+#[verifier::external_body]
+pub broadcast proof fn axiom_range_is_empty_usize(r: &Range<usize>)
+    ensures #[trigger] range_is_empty(r) == !(r.start < r.end),
+{}
 } // verus!
